@@ -6,6 +6,7 @@ import (
 	"testing"
 
 	"github.com/hneemann/parser2/value"
+	"github.com/hneemann/parser2/value/export"
 	"pgregory.net/rapid"
 
 	"verif/harness/evid"
@@ -61,7 +62,35 @@ func config() lang.Config {
 	return c
 }
 
-func buildMap(c Case) value.Map {
+// buildMap returns the argument: a map in one of the storages of obs.BuildMap (0..3), or
+// the map the implementation itself builds from a literal (4), also behind the wrappers of
+// the export package, which are maps through ToMap (5: Format, 6: Link, 7: both).
+func buildMap(c Case) value.Value {
+	if c.Rep >= 4 {
+		lit := lang.Map(append([]string{}, c.Prog.ArgNames...), append([]*lang.Expr{}, c.Args...))
+		if c.Decoys {
+			for _, k := range []string{"pi", "true", "false", "abs", "string", "numbers"} {
+				lit = lang.MCall(lit, "put", lang.Str(k), lang.Str("decoy "+k))
+			}
+		}
+		f, _, err := implOff.Generate(lang.Render(lit))
+		if err != nil {
+			panic("map literal rejected: " + err.Error())
+		}
+		m, err := f.Eval()
+		if err != nil {
+			panic("map literal fails: " + err.Error())
+		}
+		switch c.Rep {
+		case 5:
+			return export.Format{Value: m, Format: value.String("color:red")}
+		case 6:
+			return export.Link{Value: m, Link: "#top"}
+		case 7:
+			return export.Link{Value: export.Format{Value: m, Format: value.String("color:red")}, Link: "#top"}
+		}
+		return m
+	}
 	m := &ref.Map{}
 	vals := progs.ArgValues(c.Args)
 	for i, n := range c.Prog.ArgNames {
@@ -142,9 +171,16 @@ func TestPropC16(t *testing.T) {
 		if rapid.IntRange(0, 2).Draw(t, "collide") == 0 {
 			cfg.ArgNames = []string{"a", "k", "v"}
 		}
+		rep := rapid.IntRange(0, 7).Draw(t, "rep")
+		// attributes that hold closures, in the maps the implementation builds itself
+		cfg.FnArgs = rep >= 4
+		if cfg.FnArgs && cfg.ArgNames == nil && rapid.IntRange(0, 3).Draw(t, "methodNames") == 0 {
+			// named like methods of maps
+			cfg.ArgNames = []string{"get", "size", "isAvail"}
+		}
 		g := lang.NewGen(t, cfg)
 		p := g.GenProgram()
-		c := Case{Case: progs.Case{Prog: p, Args: progs.GenArgs(t, p.ArgTypes)}, Rep: rapid.IntRange(0, 3).Draw(t, "rep"),
+		c := Case{Case: progs.Case{Prog: p, Args: progs.GenArgs(t, p.ArgTypes)}, Rep: rep,
 			Decoys: rapid.Bool().Draw(t, "decoys")}
 		c.Text = lang.Render(p.Body)
 		if rapid.IntRange(0, 4).Draw(t, "lateConst") == 0 {
@@ -175,6 +211,18 @@ func TestPropC16(t *testing.T) {
 		}
 		if c.LateConst != "" {
 			classes = append(classes, "constant_registered_after_first_GenerateWithMap")
+		}
+		for i, ty := range p.ArgTypes {
+			if ty == lang.TFn1 && p.Body.Mentions(p.ArgNames[i]) {
+				classes = append(classes, "attribute_holds_a_closure")
+				if p.ArgNames[0] == "get" {
+					classes = append(classes, "closure_attribute_named_like_a_map_method")
+				}
+				break
+			}
+		}
+		if c.Rep >= 5 {
+			classes = append(classes, "map_behind_a_wrapper_value")
 		}
 		if p.ArgNames[0] != "x" {
 			classes = append(classes, "attribute_names_collide_with_locals")
